@@ -101,9 +101,19 @@ func (fr *frame) mapDelete(args []SV, cur *State) SV {
 
 func (fr *frame) mapLen(m SV, cur *State, rtyp types.Type) SV {
 	vc := fr.vc
-	r := vc.fresh("maplen", "Int")
-	vc.assume(le("0", r))
-	vc.assumes["len(map) is an unconstrained non-negative integer"] = true
+	mt, ok := m.typ.Underlying().(*types.Map)
+	if !ok {
+		r := vc.fresh("maplen", "Int")
+		vc.assume(le("0", r))
+		return SV{t: r, typ: rtyp}
+	}
+	_, hp, ks, _ := vc.mapHeaps(mt)
+	fn := "maplen_" + sanitize(ks)
+	vc.declRaw("fn:"+fn, fmt.Sprintf("(declare-fun %s ((Array %s Bool)) Int)", fn, ks))
+	pres := ite(eq(m.t, "0"), "((as const (Array "+ks+" Bool)) false)", sel(vc.heapGet(cur, hp), m.t))
+	r := vc.nameTerm2("maplen", app(fn, pres), "Int")
+	vc.assume(and(le("0", r), le(r, "281474976710656")))
+	vc.assumes["len(map) is a non-negative function of the set of keys present (it equals the number of keys a range over the map visits)"] = true
 	return SV{t: r, typ: rtyp}
 }
 
@@ -158,15 +168,24 @@ func (fr *frame) rangeOp(x *ssa.Range, cur *State) SV {
 	}
 	m := fr.val(x.X)
 	_, hp, ks, _ := vc.mapHeaps(mt)
-	if strings.HasPrefix(vc.sortOf(mt.Key()), "(Array") {
-		vc.errorf("range over a map with array keys is not supported (%s)", funcKey(fr.fn))
-	}
 	n := fr.rangeOrdinal(x)
 	ln, key, idx := vc.rangeSyms(n, ks)
 	p0 := vc.nameTerm2("present0", ite(eq(m.t, "0"), "((as const (Array "+ks+" Bool)) false)", sel(vc.heapGet(cur, hp), m.t)), "(Array "+ks+" Bool)")
 	vc.assume(le("0", ln))
+	{
+		fn := "maplen_" + sanitize(ks)
+		vc.declRaw("fn:"+fn, fmt.Sprintf("(declare-fun %s ((Array %s Bool)) Int)", fn, ks))
+		vc.assume(eq(ln, app(fn, p0)))
+		vc.assume(le(ln, "281474976710656")) // as for slices: fewer than 2^48 entries
+	}
 	vc.assume(fmt.Sprintf("(forall ((rg_i Int)) (! (=> (and (<= 0 rg_i) (< rg_i %s)) (and (select %s (%s rg_i)) (= (%s (%s rg_i)) rg_i))) :pattern ((%s rg_i))))", ln, p0, key, idx, key, key))
 	vc.assume(fmt.Sprintf("(forall ((rg_k %s)) (! (=> (select %s rg_k) (and (<= 0 (%s rg_k)) (< (%s rg_k) %s) (= (%s (%s rg_k)) rg_k))) :pattern ((%s rg_k)) :pattern ((select %s rg_k))))", ks, p0, idx, idx, ln, key, idx, idx, p0))
+	if aks := vc.sortOf(mt.Key()); strings.HasPrefix(aks, "(Array") {
+		// array-keyed map: the heaps are indexed by the integer codes of the keys; every code present in the map is the
+		// code of the array it decodes to (it was inserted as arrid(k))
+		sfx := sanitize(aks)
+		vc.assume(fmt.Sprintf("(forall ((rg_i Int)) (! (=> (and (<= 0 rg_i) (< rg_i %s)) (= (arrid%s (arrid_inv%s (%s rg_i))) (%s rg_i))) :pattern ((%s rg_i))))", ln, sfx, sfx, key, key, key))
+	}
 	vc.ensureHeap("Hrng", "Int", nil, false)
 	vc.heapSet(cur, "Hrng", sto(vc.heapGet(cur, "Hrng"), num(int64(n)), "0"))
 	vc.assumes["range over a map: the keys present at loop entry are visited once each in an arbitrary order; the body inserts no key into the ranged map"] = true
@@ -193,7 +212,11 @@ func (fr *frame) nextOp(x *ssa.Next, cur *State) SV {
 	present := and(not(eq(m.t, "0")), sel(sel(vc.heapGet(cur, hp), m.t), k))
 	v := ite(present, sel(sel(vc.heapGet(cur, hv), m.t), k), vc.zero(mt.Elem()))
 	vc.heapSet(cur, "Hrng", sto(vc.heapGet(cur, "Hrng"), it.t, ite(ok, add(pos, "1"), pos)))
-	return SV{typ: x.Type(), tup: []SV{{t: ok, typ: types.Typ[types.Bool]}, {t: k, typ: mt.Key()}, {t: v, typ: mt.Elem()}}}
+	kv := k
+	if aks := vc.sortOf(mt.Key()); strings.HasPrefix(aks, "(Array") {
+		kv = app("arrid_inv"+sanitize(aks), k) // the Go-level key value is the array the code stands for
+	}
+	return SV{typ: x.Type(), tup: []SV{{t: ok, typ: types.Typ[types.Bool]}, {t: kv, typ: mt.Key()}, {t: v, typ: mt.Elem()}}}
 }
 
 // rangeKeySort: SMT sort of the keys of the n-th map range of the function under verification.
